@@ -58,7 +58,7 @@ SqOK(o, q, eps) == OIsSome(o) /\ OSign(o) >= 0 /\ QClose(QSq(OQ(o)), q, TolQ(q, 
 
 (* does the observation o (with predecessor prev) satisfy the definition's answer r ? *)
 Matches(o, prev, r, eps) ==
-    CASE r[1] = "any"  -> TRUE
+    CASE r[1] = "any" \/ OIsReject(o) -> TRUE       \* a configuration its constructor refuses has no behaviour to judge
       [] r[1] = "n"    -> OIsNone(o)
       [] r[1] = "q"    -> OCloseQ(o, r[2], TolQ(r[2], eps))
       [] r[1] = "f"    -> OCloseF(o, r[2], TolF(r[2], FFromQ(eps)))
